@@ -108,7 +108,8 @@ def oracle(chk: core.Check, thorough: bool):
                 break
 
 
-def histories(chk: core.Check):
+def histories(chk: core.Check, what="lookup after the caller modified a handed-out table",
+              clause="tables handed to the caller are private copies: modifying them never changes later lookups"):
     cache = tempfile.mkdtemp(prefix="c09-nbcache-")
     try:
         env = dict(os.environ, NUMBA_CACHE_DIR=cache)
@@ -120,8 +121,7 @@ def histories(chk: core.Check):
         chk.count(out["steps"], key="histories")
         chk.coverage["history_steps"] = out["steps"]
         for f in out["failures"][:2]:
-            chk.failing_input("lookup after the caller modified a handed-out table", {"history": f["history"], "lookup": f["lookup"], "element": f["element"]}, f["got"], f["published"],
-                              "tables handed to the caller are private copies: modifying them never changes later lookups")
+            chk.failing_input(what, {"history": f["history"], "lookup": f["lookup"], "element": f["element"]}, f["got"], f["published"], clause)
     finally:
         shutil.rmtree(cache, ignore_errors=True)
 
